@@ -9,6 +9,8 @@
 //        <iptable> is for the model only (answers of ip.q for the strings the model asks about).
 //   ip.q <hex>     what Ip::Address::fromHost / isAnyAddr / toHostStr say about a string (the
 //                  model's oracle for IP-literal recognition)
+//   ip.fix <hex q> <hex c>   same as ip.q <q> (the check's oracle expects the answer I<c>: canonical
+//                  forms are fixed points of the recognition)
 //   uri.info       method ids
 #include "squid.h"
 #include <sstream>
@@ -93,7 +95,7 @@ int main() {
                     if (!v.parse(m, canon)) o << "rej";
                     else { o << "ok "; fields(o, v); }
                 }
-            } else if (op == "ip.q") {
+            } else if (op == "ip.q" || op == "ip.fix") {
                 const std::string raw = unhex(a[1]);
                 Ip::Address ip;
                 if (!ip.fromHost(raw.c_str())) o << "N";
